@@ -36,7 +36,7 @@ REACH = [("yamlpath/commands/yaml_paths.py", "search_for_paths,yield_children", 
          ("yamlpath/commands/yaml_paths.py", "process_yaml_file,print_results,get_search_term", "yaml_paths CLI glue"),
          ("yamlpath/common/searches.py", "search_anchor", "Searches.search_anchor")]
 SIZES = {"quick": dict(lib=200000, cli=800), "thorough": dict(lib=1200000, cli=3000)}
-REQUIRED_COUNTERS = ["lib_cases", "cli_cases", "resolved_paths", "anchor_docs", "expand_cases", "cli_escaped_terms", "multi_expression_subprocess_cases", "cli_route_dash", "cli_route_implicit"]
+REQUIRED_COUNTERS = ["lib_cases", "cli_cases", "resolved_paths", "anchor_docs", "expand_cases", "cli_escaped_terms", "multi_expression_subprocess_cases", "cli_route_dash", "cli_route_implicit", "docs_with_negative_integer_keys"]
 OPS = {"=": PathSearchMethods.EQUALS, "^": PathSearchMethods.STARTS_WITH, "$": PathSearchMethods.ENDS_WITH,
        "%": PathSearchMethods.CONTAINS, ">": PathSearchMethods.GREATER_THAN, "<": PathSearchMethods.LESS_THAN,
        ">=": PathSearchMethods.GREATER_THAN_OR_EQUAL, "<=": PathSearchMethods.LESS_THAN_OR_EQUAL,
@@ -450,7 +450,10 @@ def run_shard(ctx):
             text = gd.gen_merge_doc(rng)
         else:
             regime = rng.choice(["N", "U", "A", "A"])
-            text, _ = gd.gen_doc(rng, regime, special_keys=rng.random() < 0.15)
+            negkeys = rng.random() < 0.1            # Integer keys below zero (printed as `levels.-2`)
+            text, _ = gd.gen_doc(rng, regime, special_keys=rng.random() < 0.15, keys=(["-2", "-1", "-10", "a", "b", "0"] if negkeys else None))
+            if negkeys:
+                ctx.counters["docs_with_negative_integer_keys"] = ctx.counters.get("docs_with_negative_integer_keys", 0) + 1
         try:
             data = yp.load(text)
         except yp.LoadError:
